@@ -324,8 +324,63 @@ def try_discharge(body, site, bounds):
             if g is not None and iv < g and no_redefinition_reaches(body, ck, it.bb):
                 return "constant index %d below the dominating guard len >= %d" % (iv, g)
         return None
+    if k == "range" and it.args and (it.resolved or "").endswith("copy_from_slice") and len(it.args) == 2:
+        # destination and source lengths agree structurally
+        dt = trace(body, it.args[0])
+        st = trace(body, it.args[1])
+        import re as _re
+
+        def idx_range(t):
+            if t.kind == "call" and ((t.root[1].callee or "") in INDEX_CALLS or (t.root[1].resolved or "").split("::")[-1] in ("index", "index_mut")) and len(t.root[1].args) == 2 and not t.fields:
+                return range_bounds(body, t.root[1].args[1])
+            return None
+        rd = idx_range(dt)
+        rs = idx_range(st)
+        if rd is not None and rs is not None and len(rd) == 1 and len(rs) == 1 and rd[0][0] == "end" and rs[0][0] == "end":
+            a, b_ = trace(body, rd[0][1]), trace(body, rs[0][1])
+            if a.kind in ("multi", "call", "rv", "param") and a.root[:2] == b_.root[:2] and a.fields == b_.fields:
+                return "both sides are [..n] with the same n"
+        if rd is not None and len(rd) == 2:
+            lo, hi = _const_val(body, rd[0][1]), _const_val(body, rd[1][1])
+            if lo is not None and hi is not None and st.kind == "call" and (st.root[1].resolved or "").endswith("to_be_bytes"):
+                ty = (st.root[1].j.get("argtys") or [""])[0]
+                width = {"u8": 1, "u16": 2, "u32": 4, "u64": 8, "u128": 16, "i16": 2, "i32": 4, "i64": 8}.get(ty)
+                if width is not None and hi - lo == width:
+                    return "constant %d-byte range <- to_be_bytes of %s" % (width, ty)
+        return None
     if k in ("index", "range"):
         recv = trace(body, it.args[0])
+        # a fixed-size array viewed as a slice: BitArray<[u8; N]>::as_raw(_mut)_slice, or an array local
+        import re as _re
+        n_fixed = None
+        base_ty = None
+        if recv.kind == "call" and (recv.root[1].resolved or "").split("::")[-1] in ("as_raw_mut_slice", "as_raw_slice") and recv.root[1].args:
+            bt = trace(body, recv.root[1].args[0])
+            if bt.kind in ("multi", "undef", "call", "param") or True:
+                l0 = recv.root[1].args[0].place.local if recv.root[1].args[0].place is not None else None
+                # the argument is `&mut data`: find the local behind the reference
+                d0 = body.unique_def(l0) if l0 is not None else None
+                if isinstance(d0, Stmt) and d0.rv.kind == "ref" and d0.rv.place is not None and d0.rv.place.is_local:
+                    base_ty = body.local_ty(d0.rv.place.local)
+                    m = _re.search(r"\[u8; (\d+)\]", base_ty)
+                    if m:
+                        n_fixed = int(m.group(1))
+        if n_fixed is not None and len(it.args) >= 2:
+            rb = range_bounds(body, it.args[1])
+            if rb is not None and len(rb) == 1 and rb[0][0] == "end":
+                et = trace(body, rb[0][1])
+                v = _const_val(body, rb[0][1])
+                if v is not None and v <= n_fixed:
+                    return "end=%d <= fixed array length %d" % (v, n_fixed)
+                if et.kind == "call" and (et.root[1].resolved or "").endswith("::min"):
+                    for a in et.root[1].args:
+                        at = trace(body, a)
+                        av = _const_val(body, a)
+                        if av is not None and av <= n_fixed:
+                            return "end <= min(.., %d) <= fixed array length %d" % (av, n_fixed)
+                        if at.kind == "call" and (at.root[1].resolved or "") == "std::mem::size_of" and (at.root[1].j.get("targs") or [""])[0] == base_ty:
+                            return "end <= min(.., size_of::<the indexed array type>()) = %d" % n_fixed
+            return None
         ck = container_key(recv)
         if ck is None or len(it.args) < 2:
             return None
